@@ -28,7 +28,10 @@
 // issuer, hint key set); storage faults at every storage call of a request (a logout
 // whose TerminateSession* call failed must not be answered as done); two overlapping
 // requests on one provider, the first parked at every one of its yield points while
-// the second is served (internal/sched), each answer judged like a sequential one.
+// the second is served (internal/sched), each answer judged like a sequential one;
+// requests that reach the endpoint damaged (wire.go): the body read fails part-way, a
+// pair is malformed, the body is oversized - crossed with the placement of every
+// parameter in query or body; judged against the request as the RP sent it.
 package main
 
 import (
@@ -36,6 +39,7 @@ import (
 	"net/http"
 	"slices"
 	"strings"
+	"time"
 
 	"verif/internal/ev"
 	"verif/internal/mon"
@@ -83,6 +87,7 @@ type reqCtx struct {
 	Extra     map[string]any `json:"provider_options,omitempty"`
 	Fault     *faultDesc     `json:"storage_fault,omitempty"`       // the storage was armed to fail during this request
 	Overlap   *overlapDesc   `json:"overlapping_request,omitempty"` // another request was served while this one was parked
+	Wire      *wireDesc      `json:"wire,omitempty"`                // how the request travelled and what became of it on the way (wire.go)
 }
 
 type verdict struct{ judged, rejected, redirected, violated bool }
@@ -123,9 +128,20 @@ func judgeResponse(run *ev.Run, router int, wc *wctx, cs *caseSpec, h *hintSpec,
 		"response": map[string]any{"status": status, "location": loc, "body": briefBody(resp.Body.String())},
 		"journal":  journal,
 	}
+	// the request could not be read / parsed completely by the endpoint (wire.go): it is judged as the RP sent it
+	damaged := rc.Wire.defective()
 	violated := func(kind, class, what string) {
 		v.violated = true
+		if damaged {
+			run.Violation("C18:"+rn+":unreadable-request:"+kind+":"+class, int64(cs.Idx), "the request reached the endpoint damaged ("+rc.Wire.Defect+", "+rc.Wire.Placement+") and was acted upon as if the readable part were the whole request: "+what, witness)
+			return
+		}
 		run.Violation("C18:"+rn+":"+kind+":"+class, int64(cs.Idx), what, witness)
+	}
+	// what a refusal of a damaged request shows is that it was damaged, not how the endpoint treats its hint or URI
+	observed := run.Observed
+	if damaged {
+		observed = func(string) {}
 	}
 	if resp.Panic != nil {
 		if resp.Panic.Harness {
@@ -209,19 +225,21 @@ func judgeResponse(run *ev.Run, router int, wc *wctx, cs *caseSpec, h *hintSpec,
 			return
 		}
 		if strings.Contains(cs.HClass, "issuer") {
-			run.Observed("foreign-issuer-rejected:" + rn)
+			observed("foreign-issuer-rejected:" + rn)
 		} else {
-			run.Observed("bad-signature-rejected:" + rn)
+			observed("bad-signature-rejected:" + rn)
 		}
 	case contradiction:
 		if !rejected {
 			violated("hint", "client-id-contradiction-accepted", fmt.Sprintf("client_id %q contradicts the hint's azp %q but the request was not rejected: status %d Location %q", cs.ClientID, h.Azp, status, loc))
 			return
 		}
-		run.Observed("contradiction-rejected:" + rn)
+		observed("contradiction-rejected:" + rn)
 	case hintSent && h.MustAccept && regs[h.Azp] != nil:
 		if rejected && storageFailed {
 			run.Count("grey", "acceptable-hint-refused-while-the-storage-failed")
+		} else if rejected && damaged {
+			run.Count("grey", "acceptable-hint-refused:the-request-arrived-damaged")
 		} else if rejected {
 			if len(requested) == 0 {
 				cl := "valid-rejected"
@@ -235,7 +253,7 @@ func judgeResponse(run *ev.Run, router int, wc *wctx, cs *caseSpec, h *hintSpec,
 				run.Count("grey", "registered-uri-refused") // never an alarm (DESIGN 6a)
 			}
 		} else if h.Expired {
-			run.Observed("expired-accepted:" + rn)
+			observed("expired-accepted:" + rn)
 		}
 	}
 	if !rejected && !redirected {
@@ -306,22 +324,22 @@ func judgeResponse(run *ev.Run, router int, wc *wctx, cs *caseSpec, h *hintSpec,
 			}
 			if t.source == "location" {
 				if hintSent {
-					run.Observed("redirect-registered-by-hint:" + rn)
+					observed("redirect-registered-by-hint:" + rn)
 				} else {
-					run.Observed("redirect-registered-by-client_id:" + rn)
+					observed("redirect-registered-by-client_id:" + rn)
 				}
 				if how == "glob" {
-					run.Observed("glob-redirect:" + rn)
+					observed("glob-redirect:" + rn)
 				}
 			}
 		case isDefault:
 			kind, stateRef = "default", wc.defURI
 			if t.source == "location" {
-				run.Observed("default-redirect:" + rn)
+				observed("default-redirect:" + rn)
 			}
 		case isKnob:
 			kind = "storage"
-			run.Observed("storage-redirect:" + rn)
+			observed("storage-redirect:" + rn)
 		default:
 			if len(requested) > 0 && !anyRegistered {
 				violated("redirect-unregistered", "other-target", fmt.Sprintf("the requested URI is not registered for the proven client, yet %s is neither the provider default %q nor a rejection: %q", t.source, wc.defURI, t.uri))
@@ -366,7 +384,7 @@ func judgeResponse(run *ev.Run, router int, wc *wctx, cs *caseSpec, h *hintSpec,
 		case len(got) == 1 && got[0] == cs.State:
 			run.Count("state", cs.SClass+"|"+t.source+"|"+kind+"|intact")
 			if kind == "requested" && t.source == "location" {
-				run.Observed("state-roundtrip:" + rn)
+				observed("state-roundtrip:" + rn)
 				if cs.SClass != "plain" {
 					run.SampleKind("state-"+cs.SClass, witness)
 				}
@@ -377,6 +395,8 @@ func judgeResponse(run *ev.Run, router int, wc *wctx, cs *caseSpec, h *hintSpec,
 				return
 			}
 			run.Count("grey", "default-redirect-without-state")
+		case damaged && rc.Wire.StateUndecodable:
+			run.Count("grey", "undecodable-state-answered-with-some-state")
 		default:
 			cl := "altered:" + cs.SClass
 			if kind != "requested" {
@@ -391,18 +411,18 @@ func judgeResponse(run *ev.Run, router int, wc *wctx, cs *caseSpec, h *hintSpec,
 	run.Count("outcome_by_client_id", cs.CClass+"|"+hintKind(h)+"|"+outcome)
 	run.Count("outcome_by_registration", cs.A+"|"+outcome)
 	if len(requested) > 0 && provenClient != "" && regs[provenClient] != nil && !anyRegistered && (rejected || outcome == "302-default" || outcome == "302-storage") {
-		run.Observed("unregistered-refused:" + rn)
+		observed("unregistered-refused:" + rn)
 		if strings.HasPrefix(cs.UClass, "meta-subst") {
 			opt := "not-opted-in"
 			if regs[provenClient].Globs {
 				opt = "opted-in"
 			}
-			run.Observed("meta-subst-refused:" + opt + ":" + rn)
+			observed("meta-subst-refused:" + opt + ":" + rn)
 			run.Count("meta_subst", cs.UClass+"|"+provenClient+"|"+outcome)
 		}
 	}
 	if strings.HasPrefix(cs.A, "a-badglob") && provenClient == cs.A && len(requested) > 0 {
-		run.Observed("malformed-glob-decided:" + rn)
+		observed("malformed-glob-decided:" + rn)
 		reg := "unregistered"
 		if anyRegistered {
 			reg = "registered-" + regHow
@@ -428,9 +448,9 @@ func judgeResponse(run *ev.Run, router int, wc *wctx, cs *caseSpec, h *hintSpec,
 				violated("terminate", "wrong-identity", fmt.Sprintf("%s(%q, %q) but the hint proves sub=%q azp=%q", e.Method, sub, client, h.Sub, h.Azp))
 				return
 			}
-			run.Observed("terminate-matched:" + rn)
+			observed("terminate-matched:" + rn)
 			if e.Method == "TerminateSessionFromRequest" {
-				run.Observed("terminate-from-request:" + rn)
+				observed("terminate-from-request:" + rn)
 			}
 		case hintSent:
 			violated("terminate", "unproven-hint", fmt.Sprintf("%s(%q, %q) on a hint that is not validly signed (%s)", e.Method, sub, client, cs.HClass))
@@ -451,8 +471,8 @@ func judgeResponse(run *ev.Run, router int, wc *wctx, cs *caseSpec, h *hintSpec,
 		f := failedTerms[0]
 		switch {
 		case rejected:
-			run.Observed("terminate-failure-reported:" + rn)
-			run.Observed("terminate-failure-reported:" + f.Method)
+			observed("terminate-failure-reported:" + rn)
+			observed("terminate-failure-reported:" + f.Method)
 		case hintSent && h.ValidSig && h.Azp != "":
 			violated("terminate", "failed-but-answered-as-logged-out", fmt.Sprintf("%s(%q, %q) failed (%s), so the session of the hint's subject %q and client %q was not terminated, yet the request was answered %d Location %q as if it had been", f.Method, f.A, f.B, f.Err, h.Sub, h.Azp, status, loc))
 			return
@@ -502,7 +522,7 @@ func hintKind(h *hintSpec) string {
 
 func main() {
 	run := ev.Start("C18", "exploration")
-	run.SetRule("case index = mixed radix over (hint class 26, client_id class 5, post_logout_redirect_uri class 34, registration of client A 10) x rounds; per case state class/value, B registration, storage variant, default-URI variant, signing algorithm, method, subject and the concrete URI/mutation are drawn from the case PRNG; every case is executed on the Provider router and the LegacyServer router (one evaluation each); a second enumerated product (case indices from 1e9) covers provider configurations: dynamic issuer (IssuerFromHost \"\" and \"/tenant\", IssuerFromForwardedOrHost) on a fresh provider per case driven under two hosts in both orders (3 requests) with hints for either host's issuer / the static issuer / issuer+slash, signed, expired or minted by a code flow under that host; and WithIDTokenHintKeySet({H}) / + WithAccessTokenKeySet(decoy) / decoy only / default with hints signed by H, the storage key S or a foreign key; a third enumerated product (case indices from 2e9): storage variant x 12 request shapes x 6 error values, per case and router one clean pass and then one request per storage call index k (the k-th call fails) and per storage method (every call of it fails); a fourth (case indices from 3e9): two overlapping requests on one provider - multi-issuer provider (3 issuer modes) x which host is parked x hint of the parked request (own issuer, the other host's issuer, expired, absent) x hint of the other request, and static issuer x 6 x 3 hint classes - different clients, subjects, URIs and states, the first request parked at EVERY one of its yield points (library spans, storage calls, client getters) in turn while the second is served completely, each answer judged alone (configuration = world + yield point); distinct = distinct vectors (router, configuration, hint class, client_id class, URI class, A registration, storage variant) that were answered and judged")
+	run.SetRule("case index = mixed radix over (hint class 26, client_id class 5, post_logout_redirect_uri class 34, registration of client A 10) x rounds; per case state class/value, B registration, storage variant, default-URI variant, signing algorithm, method, subject and the concrete URI/mutation are drawn from the case PRNG; every case is executed on the Provider router and the LegacyServer router (one evaluation each); a second enumerated product (case indices from 1e9) covers provider configurations: dynamic issuer (IssuerFromHost \"\" and \"/tenant\", IssuerFromForwardedOrHost) on a fresh provider per case driven under two hosts in both orders (3 requests) with hints for either host's issuer / the static issuer / issuer+slash, signed, expired or minted by a code flow under that host; and WithIDTokenHintKeySet({H}) / + WithAccessTokenKeySet(decoy) / decoy only / default with hints signed by H, the storage key S or a foreign key; a third enumerated product (case indices from 2e9): storage variant x 12 request shapes x 6 error values, per case and router one clean pass and then one request per storage call index k (the k-th call fails) and per storage method (every call of it fails); a fourth (case indices from 3e9): two overlapping requests on one provider - multi-issuer provider (3 issuer modes) x which host is parked x hint of the parked request (own issuer, the other host's issuer, expired, absent) x hint of the other request, and static issuer x 6 x 3 hint classes - different clients, subjects, URIs and states, the first request parked at EVERY one of its yield points (library spans, storage calls, client getters) in turn while the second is served completely, each answer judged alone (configuration = world + yield point); a fifth (case indices from 4e9): requests that reach the endpoint damaged - 9 request shapes x 17 placements (GET; POST with id_token_hint, client_id, post_logout_redirect_uri and state each in the query or in the body) x 38 wire conditions (intact; the body read failing after 0 bytes / mid first pair / at the first pair boundary / one byte before the end / after the last byte with io.ErrUnexpectedEOF, a read deadline, a connection reset or the request context cancelled; the state sent with a raw ';' or a bad / truncated percent escape; an unrelated malformed pair first or last in the query or the body; a body above net/http's form limit, with 2 of the placements), the state always sent, pair order drawn, each answer judged against the request as the RP sent it (configuration = wire condition + placement); distinct = distinct vectors (router, configuration, hint class, client_id class, URI class, A registration, storage variant) that were answered and judged")
 	run.Assume(
 		"glob semantics = path.Match as documented for op.HasRedirectGlobs; a malformed pattern registers nothing",
 		"a redirect target 'is' a requested URI when scheme/host (case-insensitively), userinfo, path, fragment and the multiset of query parameters other than state agree",
@@ -513,6 +533,7 @@ func main() {
 		"without a hint no subject is proven: TerminateSession(\"\", client_id) is counted, not judged",
 		"while a storage call of the request fails, refusing the request is always conforming (an otherwise acceptable hint may be refused); a logout whose TerminateSession* call failed has terminated nobody's session: answering it with a redirect is a violation when the hint proves subject and client, grey without a proven subject",
 		"overlapping requests are judged one by one exactly like sequential ones; the parked request makes no storage call while the other one runs, so the store's journal is split by sequence number; a second request that cannot finish while the first is parked (2 min watchdog) makes the case inconclusive",
+		"a request the endpoint could not read or parse completely (body read error, malformed pair, oversize body) is judged as the RP sent it: refusing it is always conforming; acting on the readable part as if it were the whole request (a redirect without the state that was sent, a hint that was sent going unverified, a session terminated for somebody else than the subject of the hint that was sent) is a violation; ';' is not a pair separator (WHATWG urlencoded), so a state sent as a1;b2 is the state a1;b2; for a state whose percent escapes do not decode only its absence from a redirect to the requested URI is judged",
 		"state on the default logout URI: altered is a violation, absent is grey; a registered URI that itself carries a state parameter is excluded from the state oracle")
 	for _, rn := range opdrv.RouterNames {
 		if run.ReplayCase() >= 0 {
@@ -526,6 +547,7 @@ func main() {
 			"ks-H-accepted-with-option:"+rn, "ks-S-rejected-with-option:"+rn, "ks-F-rejected-with-option:"+rn, "ks-S-accepted-without-option:"+rn, "ks-H-rejected-without-option:"+rn,
 			"fault:KeySet:refused:"+rn, "fault:GetClientByClientID:refused:"+rn, "fault:TerminateSession:refused:"+rn, "fault:TerminateSessionFromRequest:refused:"+rn, "terminate-failure-reported:"+rn,
 			"overlap-foreign-issuer-rejected:"+rn, "overlap-own-issuer-accepted:"+rn, "overlap-static-issuer-judged:"+rn, "overlap-parked-at-every-point:"+rn)
+		run.Mandatory(wireMandatory(rn)...)
 	}
 	if run.ReplayCase() < 0 {
 		run.Mandatory("terminate-failure-reported:TerminateSession", "terminate-failure-reported:TerminateSessionFromRequest")
@@ -543,8 +565,13 @@ func main() {
 	run.Extra("fault_rounds", faultRounds)
 	run.Extra("overlap_product_per_round", overlapProduct())
 	run.Extra("overlap_rounds", overlapRounds)
+	wireRounds := run.N(1, 30)
+	run.Extra("wire_product_per_round", wireProduct())
+	run.Extra("wire_rounds", wireRounds)
 	if rc := run.ReplayCase(); rc >= 0 {
-		if rc >= overlapBase {
+		if rc >= wireBase {
+			runWireCase(run, 0, int(rc-wireBase))
+		} else if rc >= overlapBase {
 			runOverlapCase(run, 0, int(rc-overlapBase))
 		} else if rc >= faultBase {
 			runFaultCase(run, 0, int(rc-faultBase))
@@ -567,6 +594,11 @@ func main() {
 	ev.Parallel(overlapProduct()*overlapRounds, 0, func(worker int, j int) {
 		runOverlapCase(run, worker, j)
 	})
+	tWire := time.Now()
+	ev.Parallel(wireProduct()*wireRounds, 0, func(worker int, j int) {
+		runWireCase(run, worker, j)
+	})
+	run.Extra("wire_product_wall_s", time.Since(tWire).Seconds()) // information only
 	run.Extra("yield_points_passed", sched.Points())
 	run.Finish()
 }
